@@ -226,6 +226,29 @@ class Case(object):
       self.functions.append(fn_id(f))
 
 
+def split_run(build, extra=(), depth=0, budget=None, leaf=''):
+  """Runs build(extra_conditions, leaf_id); when the interpreter reports that a cast / sort order is not determined
+  (sym.NeedSplit) the case is split on the offending condition and both feasible halves are run (DESIGN 1.4)."""
+  if budget is None:
+    budget = [40]
+  try:
+    build(list(extra), leaf)
+  except sym.NeedSplit as e:
+    if depth > 10 or budget[0] <= 0:
+      raise HarnessError('case needs too many splits (%s)' % e.why)
+    c = sym.ctx()
+    for tag, cond in (('+', e.cond), ('-', z3.Not(e.cond))):
+      s = z3.Solver()
+      s.set('timeout', 5000)
+      s.add(*c.assumptions)
+      s.add(*c.case_assumptions)
+      s.add(cond)
+      if s.check() == z3.unsat:
+        continue
+      budget[0] -= 1
+      split_run(build, list(extra) + [cond], depth + 1, budget, leaf + tag)
+
+
 def model_array(m, arr):
   arr = np.asarray(arr, dtype=object)
   out = np.empty(arr.shape, dtype=object)
